@@ -100,7 +100,11 @@ def run(project: Project, rep, tier: str):
         rep.unmodelled("WS-SOLVE", fi, fi.node, f"matching=True: {ex}"[:160])
     check_empty(rep, project, WS, rule="WS-EMPTY")
     for ev in run_.events("shape-error"):
-        rep.refuted("WS-TILE", fi, ev["node"], f"shape mismatch for some sizes: {ev['message']}")
+        if run_.interp.clean_before(ev):
+            rep.refuted("WS-TILE", fi, ev["node"], f"shape mismatch for some sizes: {ev['message']}")
+        else:
+            rep.unmodelled("WS-TILE", fi, ev["node"], f"a shape mismatch is reported after values the run could not model: "
+                                                     f"{ev['message']}"[:200])
     rep.floor("WS-COST", 5)
     rep.floor("WS-TILE", 7)
     rep.floor("WS-FILTER", 2)
